@@ -505,6 +505,23 @@ func Worker(shard, n int, tier string) *engine.Result {
 			all = append(all, []node{{kind: "exec", kids: row}})
 		}
 	}
+	// wide lists of plain messages with the offender far back: inside one exec, and at top level
+	for _, wdt := range []int{8, 12} {
+		for _, bad := range []node{{kind: "eth"}, {kind: "vest"}, {kind: "grantEth"}, {kind: "grantVest"}, {kind: "exec", kids: []node{{kind: "eth"}}}} {
+			for _, pos := range []int{7, wdt - 1} {
+				var row []node
+				for i := 0; i < wdt; i++ {
+					if i == pos {
+						row = append(row, bad)
+					} else {
+						row = append(row, node{kind: "send"})
+					}
+				}
+				all = append(all, []node{{kind: "exec", kids: row}})
+				all = append(all, row)
+			}
+		}
+	}
 	opts := optLists(tier)
 	res.Extra["forests_total"] = len(all)
 	res.Extra["option_lists"] = len(opts)
@@ -574,7 +591,7 @@ func Run(tier string) int {
 	}
 	return engine.Finish(res, engine.Meta{
 		Property: Prop, Tier: tier, Level: "model_checking", Start: start,
-		Rule: "all ordered message forests with <= 4 (thorough 5) nodes over {exec, send, eth msg, grant(blocked eth), grant(blocked vesting), grant(allowed), packed unregistered vesting msg} + exec chains of depth 1..9 + sibling rows of width 6..8, x 29 extension-option lists (critical and non-critical), each delivered through the real DeliverTx on a branch; non-trivial = case the reference predicate says must be rejected",
+		Rule: "all ordered message forests with <= 4 (thorough 5) nodes over {exec, send, eth msg, grant(blocked eth), grant(blocked vesting), grant(allowed), packed unregistered vesting msg} + exec chains of depth 1..9 + sibling rows of width 6..8 + lists of 8 / 12 plain messages with the offender at index 7 or last (inside one exec and at top level), x 29 extension-option lists (critical and non-critical), each delivered through the real DeliverTx on a branch; non-trivial = case the reference predicate says must be rejected",
 		Assumptions: []string{
 			"all exec wrappers name the signer as grantee, so benign trees pass authz without stored grants",
 			"transactions are correctly signed wherever the route allows it; message shapes for which legacy EIP-712 typed data cannot be built are delivered with an unsigned Web3Tx option",
